@@ -713,3 +713,4 @@ verif_proof_ghost! { [C18]
     #[kani::stub(crate::io::wal::EmbeddedWal::scan_records, crate::io::wal::verif_wal::ghost_scan_01)]
     fn c18_wal_read_only_open_pending_only() { read_only_ops_upto(false, true, 0); }
 }
+
